@@ -116,9 +116,7 @@ theorem readFixed_cons {n : Nat} {s s' : St} {got : List Nat} (h : readFixed n s
     rw [h1] at h
     simp only at h
     split at h
-    · rw [bind_eq] at h
-      simp only [getSt] at h
-      cases hd : s1.dev <;> rw [hd] at h <;> simp [ioErr, ubAt, stop] at h
+    · simp [ioErr, stop] at h
     · rename_i hlt
       have h' : (Except.ok (g, s1) : Except Stop (List Nat × St)) = Except.ok (got, s') := h
       injection h' with h'
@@ -330,11 +328,13 @@ theorem nh_pnm_readHeader : NH Pnm.readHeader := by
       apply nh_bind nh_readInt; intro w
       apply nh_bind nh_readInt; intro h
       split
-      · exact nh_pure _
-      · apply nh_bind nh_readInt; intro m
-        split
-        · exact nh_ioErr
+      · exact nh_ioErr
+      · split
         · exact nh_pure _
+        · apply nh_bind nh_readInt; intro m
+          split
+          · exact nh_ioErr
+          · exact nh_pure _
 
 theorem pnm_token_nhs (site : String) : ∀ (fuel : Nat) (acc : List Nat) (s : St), s.rest.length < fuel → NHs (Pnm.token site fuel acc) s
   | 0, _, s, h => by omega
@@ -371,7 +371,7 @@ theorem nh_pnm_textSamples (site : String) (maxv : Int) (process : Bool) :
     apply NHs.bind (pnm_token_nhs site _ _ s (by omega))
     intro t s1 _ _
     split
-    · exact nh_pure _ s1
+    · exact nh_ioErr s1
     · split
       · exact nh_pnm_textSamples site maxv process n _ _ s1
       · exact nh_pnm_textSamples site maxv process n _ _ s1
@@ -393,6 +393,7 @@ theorem nh_setRow (site : String) (d : Dest) (y : Int) (px : List Nat) : NH (d.s
 theorem nh_bmp_copyRowIfNeeded (st : Settings) (dimx dimy : Int) (r : Bmp.Rle) (d : Dest) :
     NH (Bmp.copyRowIfNeeded st dimx dimy r d) := by
   unfold Bmp.copyRowIfNeeded
+  dsimp only
   split
   · split
     · exact nh_pure _
@@ -404,38 +405,40 @@ theorem nh_bmp_copyRowIfNeeded (st : Settings) (dimx dimy : Int) (r : Bmp.Rle) (
 theorem nh_bmp_putRun (r : Bmp.Rle) (vals : List (Nat × Nat × Nat × Nat)) : NH (Bmp.putRun r vals) := by
   unfold Bmp.putRun; nh_tac
 
-theorem nh_bmp_palAt (pal : Bmp.Palette) (c : Int) : NH (Bmp.palAt pal c) := by
+theorem nh_bmp_palAt (pal : Bmp.Palette) (dcl c : Int) : NH (Bmp.palAt pal dcl c) := by
   unfold Bmp.palAt; nh_tac
 
-theorem nh_bmp_palAt' (pal : Bmp.Palette) (c n : Int) : NH (Bmp.rleLoop.palAt' pal c n) := by
+theorem nh_bmp_palAt' (pal : Bmp.Palette) (dcl c n : Int) : NH (Bmp.rleLoop.palAt' pal dcl c n) := by
   unfold Bmp.rleLoop.palAt'
   split
   · exact nh_pure _
-  · exact nh_bmp_palAt _ _
+  · exact nh_bmp_palAt _ _ _
 
-theorem nh_bmp_absRun8 (pal : Bmp.Palette) : ∀ (n : Nat) (r : Bmp.Rle), NH (Bmp.absRun8 pal n r)
+theorem nh_bmp_absRun8 (pal : Bmp.Palette) (dcl : Int) : ∀ (n : Nat) (r : Bmp.Rle), NH (Bmp.absRun8 pal dcl n r)
   | 0, r => by unfold Bmp.absRun8; exact nh_pure _
   | n + 1, r => by
     unfold Bmp.absRun8
     apply nh_bind nh_readU8; intro c
-    apply nh_bind (nh_bmp_palAt _ _); intro p
+    apply nh_bind (nh_bmp_palAt _ _ _); intro p
     apply nh_bind (nh_bmp_putRun _ _); intro r'
-    exact nh_bmp_absRun8 pal n r'
+    exact nh_bmp_absRun8 pal dcl n r'
 
-theorem nh_bmp_absRun4 (pal : Bmp.Palette) (count second : Int) : ∀ (fuel : Nat) (i : Int) (r : Bmp.Rle), NH (Bmp.absRun4 pal count second fuel i r)
+theorem nh_bmp_absRun4 (pal : Bmp.Palette) (dcl count second : Int) : ∀ (fuel : Nat) (i : Int) (r : Bmp.Rle), NH (Bmp.absRun4 pal dcl count second fuel i r)
   | 0, _, r => by unfold Bmp.absRun4; exact nh_pure _
   | fuel + 1, i, r => by
     unfold Bmp.absRun4
     split
     · apply nh_bind nh_readU8; intro b
       dsimp only
-      apply nh_bind (nh_bmp_palAt _ _); intro p
+      apply nh_bind (nh_bmp_palAt _ _ _); intro p
       apply nh_bind (nh_bmp_putRun _ _); intro r'
       split
       · exact nh_pure _
-      · apply nh_bind (nh_bmp_palAt _ _); intro p2
-        apply nh_bind (nh_bmp_putRun _ _); intro r''
-        exact nh_bmp_absRun4 pal count second fuel _ r''
+      · split
+        · exact nh_pure _
+        · apply nh_bind (nh_bmp_palAt _ _ _); intro p2
+          apply nh_bind (nh_bmp_putRun _ _); intro r''
+          exact nh_bmp_absRun4 pal dcl count second fuel _ r''
     · exact nh_pure _
 
 
@@ -456,12 +459,12 @@ theorem bmp_rleLoop_nhs (i : Bmp.Info) (pitch : Int) (st : Settings) (dimx dimy 
     try dsimp only
     split
     · split
-      · apply NHs.bind (nh_bmp_palAt' _ _ _ s2); intro p0 s3 _ h3
-        apply NHs.bind (nh_bmp_palAt' _ _ _ s3); intro p1 s4 _ h4
+      · apply NHs.bind (nh_bmp_palAt' _ _ _ _ s2); intro p0 s3 _ h3
+        apply NHs.bind (nh_bmp_palAt' _ _ _ _ s3); intro p1 s4 _ h4
         try dsimp only
         apply NHs.bind (nh_bmp_putRun _ _ s4); intro r' s5 _ h5
         exact bmp_rleLoop_nhs i pitch st dimx dimy pal yend yinc fuel _ _ s5 (by omega)
-      · apply NHs.bind (nh_bmp_palAt' _ _ _ s2); intro p s3 _ h3
+      · apply NHs.bind (nh_bmp_palAt' _ _ _ _ s2); intro p s3 _ h3
         apply NHs.bind (nh_bmp_putRun _ _ s3); intro r' s4 _ h4
         exact bmp_rleLoop_nhs i pitch st dimx dimy pal yend yinc fuel _ _ s4 (by omega)
     · split
@@ -507,9 +510,9 @@ theorem bmp_rleLoop_nhs (i : Bmp.Info) (pitch : Int) (st : Settings) (dimx dimy 
               · apply NHs.bind (nh_pure _ s3); intro r'' s4 _ h4
                 exact bmp_rleLoop_nhs i pitch st dimx dimy pal yend yinc fuel _ _ s4 (by omega)
             split
-            · apply NHs.bind (nh_bmp_absRun4 _ _ _ _ _ _ s2); intro r' s3 _ h3
+            · apply NHs.bind (nh_bmp_absRun4 _ _ _ _ _ _ _ s2); intro r' s3 _ h3
               exact tail r' s3 h3
-            · apply NHs.bind (nh_bmp_absRun8 _ _ _ s2); intro r' s3 _ h3
+            · apply NHs.bind (nh_bmp_absRun8 _ _ _ _ s2); intro r' s3 _ h3
               exact tail r' s3 h3
 
 
@@ -667,115 +670,112 @@ theorem se_pnm_readHeader {P : Stop → Prop} (hP : Adm P) : SE P Pnm.readHeader
       apply se_bind (se_readInt hP); intro w
       apply se_bind (se_readInt hP); intro h
       split
-      · exact se_pure _
-      · apply se_bind (se_readInt hP); intro m
-        split
-        · exact se_ioErr hP
+      · exact se_ioErr hP
+      · split
         · exact se_pure _
+        · apply se_bind (se_readInt hP); intro m
+          split
+          · exact se_ioErr hP
+          · exact se_pure _
 
-/-! fixed-size reads are checked by the file device -/
+/-! fixed-size reads are checked by both devices (istream_device since /repo cdb7c21) -/
 
-theorem sef_readFixed {P : Stop → Prop} (hP : Adm P) (n : Nat) : SEf P (readFixed n) := by
-  intro s hs
+theorem se_readFixed {P : Stop → Prop} (hP : Adm P) (n : Nat) : SE P (readFixed n) := by
   unfold readFixed
-  apply SEs.bind (se_readSome n s)
-  intro got s1 _ _ hd
+  apply se_bind (se_readSome n); intro got
   split
-  · apply SEs.bind
-    · show SEs P getSt s1
-      show GoodE P s1 (Except.ok (s1, s1)); exact ⟨Nat.le_refl _, rfl, rfl⟩
-    · intro st s2 h2 _ _
-      have h2' : (Except.ok (s1, s1) : Except Stop (St × St)) = Except.ok (st, s2) := h2
-      injection h2' with h2'; injection h2' with e1 e2; subst e1; subst e2
-      have : s1.dev = .file := hd.trans hs
-      rw [this]
-      exact se_ioErr hP s1
-  · exact se_pure _ s1
+  · exact se_ioErr hP
+  · exact se_pure _
 
-theorem sef_readU8 {P : Stop → Prop} (hP : Adm P) : SEf P readU8 := by
-  unfold readU8; apply sef_bind (sef_readFixed hP 1); intro _; exact sef_of_se (se_pure _)
-theorem sef_readU16 {P : Stop → Prop} (hP : Adm P) : SEf P readU16 := by
-  unfold readU16; apply sef_bind (sef_readFixed hP 2); intro _; exact sef_of_se (se_pure _)
-theorem sef_readU32 {P : Stop → Prop} (hP : Adm P) : SEf P readU32 := by
-  unfold readU32; apply sef_bind (sef_readFixed hP 4); intro _; exact sef_of_se (se_pure _)
+theorem se_readU8 {P : Stop → Prop} (hP : Adm P) : SE P readU8 := by
+  unfold readU8; apply se_bind (se_readFixed hP 1); intro _; exact se_pure _
+theorem se_readU16 {P : Stop → Prop} (hP : Adm P) : SE P readU16 := by
+  unfold readU16; apply se_bind (se_readFixed hP 2); intro _; exact se_pure _
+theorem se_readU32 {P : Stop → Prop} (hP : Adm P) : SE P readU32 := by
+  unfold readU32; apply se_bind (se_readFixed hP 4); intro _; exact se_pure _
 
-/-- TARGA `read_header` on any bytes through the file device: a header or `std::ios_base::failure` -/
-theorem sef_tga_readHeader {P : Stop → Prop} (hP : Adm P) : SEf P Tga.readHeader := by
+/-- TARGA `read_header` on any bytes, any device: a header or `std::ios_base::failure` -/
+theorem se_tga_readHeader {P : Stop → Prop} (hP : Adm P) : SE P Tga.readHeader := by
   unfold Tga.readHeader
-  apply sef_bind (sef_readU8 hP); intro idl
+  apply se_bind (se_readU8 hP); intro idl
   dsimp only
-  apply sef_bind (sef_readU8 hP); intro cmt
-  apply sef_bind (sef_readU8 hP); intro it
-  apply sef_bind (sef_readU16 hP); intro _
-  apply sef_bind (sef_readU16 hP); intro cml
-  apply sef_bind (sef_readU8 hP); intro _
-  apply sef_bind (sef_readU16 hP); intro _
-  apply sef_bind (sef_readU16 hP); intro _
-  apply sef_bind (sef_readU16 hP); intro w
-  apply sef_bind (sef_readU16 hP); intro h
+  apply se_bind (se_readU8 hP); intro cmt
+  apply se_bind (se_readU8 hP); intro it
+  apply se_bind (se_readU16 hP); intro _
+  apply se_bind (se_readU16 hP); intro cml
+  apply se_bind (se_readU8 hP); intro _
+  apply se_bind (se_readU16 hP); intro _
+  apply se_bind (se_readU16 hP); intro _
+  apply se_bind (se_readU16 hP); intro w
+  apply se_bind (se_readU16 hP); intro h
   split
-  · exact sef_of_se (se_ioErr hP)
-  · apply sef_bind (sef_readU8 hP); intro bpp
+  · exact se_ioErr hP
+  · apply se_bind (se_readU8 hP); intro bpp
     split
-    · exact sef_of_se (se_ioErr hP)
-    · apply sef_bind (sef_readU8 hP); intro desc
-      repeat' (first | exact sef_of_se (se_ioErr hP) | exact sef_of_se (se_pure _) | split)
+    · exact se_ioErr hP
+    · apply se_bind (se_readU8 hP); intro desc
+      repeat' (first | exact se_ioErr hP | exact se_pure _ | split)
 
 
-/-- the stops BMP `read_header` can produce on the file device: a C++ exception, or the INT_MIN negation -/
-def BmpHdrStop (e : Stop) : Prop :=
-  IsErr e ∨ ∃ w, e = Stop.ub "negation-overflow@extension/io/bmp/detail/reader_backend.hpp:read_header" w
-theorem adm_bmpHdrStop : Adm BmpHdrStop := fun k => Or.inl ⟨k, rfl⟩
-
-/-- BMP `read_header` on any bytes through the file device: a header, `std::ios_base::failure`, or the one
-    undefined negation of `height == INT_MIN` -/
-theorem sef_bmp_readHeader : SEf BmpHdrStop Bmp.readHeader := by
-  have hP := adm_bmpHdrStop
-  unfold Bmp.readHeader
-  apply sef_bind (sef_readU16 hP); intro magic
+/-- BMP `read_header` (before the dimension check) on any bytes, any device: a header or `std::ios_base::failure`
+    (the INT_MIN height is rejected since /repo ad1e4c7) -/
+theorem se_bmp_readHeader0 {P : Stop → Prop} (hP : Adm P) : SE P Bmp.readHeader0 := by
+  unfold Bmp.readHeader0
+  apply se_bind (se_readU16 hP); intro magic
   split
-  · exact sef_of_se (se_ioErr hP)
-  · apply sef_bind (sef_readU32 hP); intro _
-    apply sef_bind (sef_readU16 hP); intro _
-    apply sef_bind (sef_readU16 hP); intro _
-    apply sef_bind (sef_readU32 hP); intro offset
-    apply sef_bind (sef_readU32 hP); intro hs
+  · exact se_ioErr hP
+  · apply se_bind (se_readU32 hP); intro _
+    apply se_bind (se_readU16 hP); intro _
+    apply se_bind (se_readU16 hP); intro _
+    apply se_bind (se_readU32 hP); intro offset
+    apply se_bind (se_readU32 hP); intro hs
     split
-    · apply sef_bind (sef_readU32 hP); intro w0
-      apply sef_bind (sef_readU32 hP); intro h0
+    · apply se_bind (se_readU32 hP); intro w0
+      apply se_bind (se_readU32 hP); intro h0
       dsimp only
       split
-      · intro s _
-        show GoodE BmpHdrStop s (Except.error _)
-        exact Or.inr ⟨_, rfl⟩
-      · apply sef_bind (sef_readU16 hP); intro _
-        apply sef_bind (sef_readU16 hP); intro bpp
-        apply sef_bind (sef_readU32 hP); intro comp
-        apply sef_bind (sef_readU32 hP); intro _
-        apply sef_bind (sef_readU32 hP); intro _
-        apply sef_bind (sef_readU32 hP); intro _
-        apply sef_bind (sef_readU32 hP); intro nc
-        apply sef_bind (sef_readU32 hP); intro _
-        exact sef_of_se (se_pure _)
+      · exact se_ioErr hP
+      · apply se_bind (se_readU16 hP); intro _
+        apply se_bind (se_readU16 hP); intro bpp
+        apply se_bind (se_readU32 hP); intro comp
+        apply se_bind (se_readU32 hP); intro _
+        apply se_bind (se_readU32 hP); intro _
+        apply se_bind (se_readU32 hP); intro _
+        apply se_bind (se_readU32 hP); intro nc
+        apply se_bind (se_readU32 hP); intro _
+        exact se_pure _
     · split
-      · apply sef_bind (sef_readU16 hP); intro w
-        apply sef_bind (sef_readU16 hP); intro h
-        apply sef_bind (sef_readU16 hP); intro _
-        apply sef_bind (sef_readU16 hP); intro bpp
-        exact sef_of_se (se_pure _)
+      · apply se_bind (se_readU16 hP); intro w
+        apply se_bind (se_readU16 hP); intro h
+        apply se_bind (se_readU16 hP); intro _
+        apply se_bind (se_readU16 hP); intro bpp
+        exact se_pure _
       · split
-        · apply sef_bind (sef_readU32 hP); intro w0
-          apply sef_bind (sef_readU32 hP); intro h0
+        · apply se_bind (se_readU32 hP); intro w0
+          apply se_bind (se_readU32 hP); intro h0
           dsimp only
-          apply sef_bind (sef_readU16 hP); intro _
-          apply sef_bind (sef_readU16 hP); intro bpp
-          apply sef_bind (sef_readU32 hP); intro comp
-          apply sef_bind (sef_readU32 hP); intro _
-          apply sef_bind (sef_readU32 hP); intro _
-          apply sef_bind (sef_readU32 hP); intro _
-          apply sef_bind (sef_readU32 hP); intro nc
-          apply sef_bind (sef_readU32 hP); intro _
-          exact sef_of_se (se_pure _)
-        · exact sef_of_se (se_ioErr hP)
+          apply se_bind (se_readU16 hP); intro _
+          apply se_bind (se_readU16 hP); intro bpp
+          apply se_bind (se_readU32 hP); intro comp
+          apply se_bind (se_readU32 hP); intro _
+          apply se_bind (se_readU32 hP); intro _
+          apply se_bind (se_readU32 hP); intro _
+          apply se_bind (se_readU32 hP); intro nc
+          apply se_bind (se_readU32 hP); intro _
+          exact se_pure _
+        · exact se_ioErr hP
+
+theorem se_bmp_readHeader {P : Stop → Prop} (hP : Adm P) : SE P Bmp.readHeader := by
+  unfold Bmp.readHeader
+  apply se_bind (se_bmp_readHeader0 hP); intro i
+  split
+  · exact se_ioErr hP
+  · exact se_pure _
+
+theorem se_checkSettings {P : Stop → Prop} (hP : Adm P) (st : Settings) (a b c d : Int) : SE P (checkSettings st a b c d) := by
+  unfold checkSettings
+  split
+  · exact se_ioErr hP
+  · exact se_pure _
 
 end GilVerif.Lemmas.C11
